@@ -9,7 +9,7 @@ use crate::core::net::{hex, unhex, ScriptServer};
 use crate::core::proc;
 use crate::core::real::serve;
 use crate::core::rng::{hash64, Rng};
-use crate::models::misc::{http_once, EcoState};
+use crate::models::misc::{http_stall, json_depth_at_end, http_once, EcoState};
 use crate::props::hostile::{call, ep_name, seed_server, Ep, Settings};
 use gamedig::verif_hook::{SocketTrait, TcpSocketImpl, UdpSocketImpl};
 use gamedig::{GDErrorKind, TimeoutSettings};
@@ -30,7 +30,8 @@ pub fn sockprobe_main(args: &[String]) -> i32 {
     let kind = args[0].as_str();
     let addr: SocketAddr = args[1].parse().expect("addr");
     let ms = |s: &str| -> Option<Duration> { if s == "none" { None } else { Some(Duration::from_millis(s.parse().unwrap())) } };
-    let ts = TimeoutSettings::new(ms(&args[2]), ms(&args[3]), ms(&args[4]), 0).ok();
+    // "default" = the caller passes no settings at all
+    let ts = if args[2] == "default" { None } else { TimeoutSettings::new(ms(&args[2]), ms(&args[3]), ms(&args[4]), 0).ok() };
     let payload = unhex(&args[5]);
     let recv = args.get(6).map(|a| a != "norecv").unwrap_or(true);
     // marker so that the checker knows where the probe's own sockets start
@@ -52,6 +53,18 @@ pub fn sockprobe_main(args: &[String]) -> i32 {
         }),
     }
     .map_err(|e| e.kind);
+    let _ = std::io::stderr().write_all(format!("PROBE-END {r:?}\n").as_bytes());
+    0
+}
+
+/// `gdverif ecoprobe <ip> <port> <read_ms> <write_ms> <connect_ms>`: one Eco query (runs in a child under strace)
+pub fn ecoprobe_main(args: &[String]) -> i32 {
+    let ip: IpAddr = args[0].parse().expect("ip");
+    let port: u16 = args[1].parse().expect("port");
+    let ms = |s: &str| -> Option<Duration> { if s == "none" { None } else { Some(Duration::from_millis(s.parse().unwrap())) } };
+    let ts = TimeoutSettings::new(ms(&args[2]), ms(&args[3]), ms(&args[4]), 0).ok();
+    let _ = std::io::stderr().write_all(b"PROBE-BEGIN\n");
+    let r = gamedig::games::eco::query_with_timeout(&ip, Some(port), &ts).map(|_| ()).map_err(|e| e.kind);
     let _ = std::io::stderr().write_all(format!("PROBE-END {r:?}\n").as_bytes());
     0
 }
@@ -236,7 +249,10 @@ impl C12 {
         // any of the three may be None ("block indefinitely"): the others must still be applied. With no read
         // timeout the probe does not wait for a reply from the silent peer.
         let (r_o, w_o, c_o) = (if cx.rng.chance(1, 6) { None } else { Some(r) }, if cx.rng.chance(1, 5) { None } else { Some(w) }, if cx.rng.chance(1, 5) { None } else { Some(c) });
-        let opt = |o: Option<u64>| o.map(|v| v.to_string()).unwrap_or_else(|| "none".into());
+        // no settings at all: the documented defaults (4 s each) must be applied
+        let no_settings = cx.rng.chance(1, 8);
+        let (r_o, w_o, c_o) = if no_settings { (Some(4000), Some(4000), Some(4000)) } else { (r_o, w_o, c_o) };
+        let opt = |o: Option<u64>| if no_settings { "default".to_string() } else { o.map(|v| v.to_string()).unwrap_or_else(|| "none".into()) };
         let payload: Vec<u8> = match cx.rng.below(4) {
             0 => vec![0xff, 0xff, 0xff, 0xff, b'T'],
             1 => cx.rng.bytes(1),
@@ -264,7 +280,7 @@ impl C12 {
         let exe = std::env::current_exe().unwrap();
         let out = verif_root().join(".work").join(format!("strace-{}-{}.txt", std::process::id(), cx.idx));
         let mut cmd = std::process::Command::new("strace");
-        cmd.args(["-f", "-xx", "-s", "70000", "-e", "trace=socket,bind,connect,setsockopt,poll,ppoll,sendto,sendmsg,recvfrom,recv,read,write", "-o"]).arg(&out).arg(&exe).args(["sockprobe", if tcp { "tcp" } else { "udp" }, &addr.to_string(), &opt(r_o), &opt(w_o), &opt(c_o), &hex(&payload), if r_o.is_some() { "recv" } else { "norecv" }]);
+        cmd.args(["-f", "-xx", "-s", "70000", "-e", "trace=socket,bind,connect,setsockopt,poll,ppoll,sendto,sendmsg,recvfrom,recv,read,write", "-o"]).arg(&out).arg(&exe).args(["sockprobe", if tcp { "tcp" } else { "udp" }, &addr.to_string(), &opt(r_o), &opt(w_o), &opt(c_o), &hex(&payload), if r_o.is_some() && !no_settings { "recv" } else { "norecv" }]);
         let res = proc::run(cmd, Duration::from_secs(20));
         cx.eval();
         let log = std::fs::read_to_string(&out).unwrap_or_default();
@@ -277,6 +293,9 @@ impl C12 {
         let (problems, events) = check_trace(&log, &addr, r_o, w_o, c_o, &payload, tcp);
         if r_o.is_none() || w_o.is_none() || c_o.is_none() {
             cx.count("strace-cases-with-a-None-timeout");
+        }
+        if no_settings {
+            cx.count("strace-cases-with-no-settings(defaults)");
         }
         cx.count_n("syscall-events-checked", events as u64);
         let label = format!("strace|{}|{}", if tcp { "tcp" } else { "udp" }, if v6 { "v6" } else { "v4" });
@@ -301,6 +320,76 @@ impl C12 {
                 "other"
             };
             cx.violation(format!("C12 syscall {class} {label}"), || json!({"problems": problems, "addr": addr.to_string(), "timeouts_ms": [r_o, w_o, c_o], "probe_stderr": stderr, "trace_excerpt": log.lines().filter(|l| l.contains("socket(") || l.contains("setsockopt") || l.contains("sendto") || l.contains("connect(") || l.contains("poll")).take(30).collect::<Vec<_>>()}));
+        }
+    }
+
+    /// an Eco query against an HTTP server that stalls in the middle of the body, under strace: the number of reads
+    /// that ran into the timeout is the number of attempts (one), whatever the JSON nesting depth at the stall
+    fn strace_eco_case(&self, cx: &mut Cx) {
+        let st = EcoState::gen(&mut cx.rng);
+        let body = st.body(&mut cx.rng, None).into_bytes();
+        if body.len() < 40 {
+            return;
+        }
+        let cut = cx.rng.usize(body.len() / 3, body.len() - 2);
+        let prefix = body[.. cut].to_vec();
+        let depth = json_depth_at_end(&prefix);
+        let chunked = cx.rng.bool();
+        let t = *cx.rng.pick(&[200u64, 400, 700]);
+        let Ok((port, stop, h)) = http_stall(prefix, body.len(), chunked, Duration::from_secs(25)) else { return cx.inconclusive("cannot bind loopback listener") };
+        let exe = std::env::current_exe().unwrap();
+        let out = verif_root().join(".work").join(format!("strace-eco-{}-{}.txt", std::process::id(), cx.idx));
+        let mut cmd = std::process::Command::new("strace");
+        cmd.args(["-f", "-e", "trace=socket,connect,setsockopt,sendto,recvfrom,recv,read", "-o"]).arg(&out).arg(&exe).args(["ecoprobe", "127.0.0.1", &port.to_string(), &t.to_string(), &t.to_string(), &t.to_string()]);
+        let res = proc::run(cmd, Duration::from_secs(20));
+        stop.store(true, std::sync::atomic::Ordering::SeqCst);
+        let _ = h.join();
+        cx.eval();
+        let log = std::fs::read_to_string(&out).unwrap_or_default();
+        let _ = std::fs::remove_file(&out);
+        let Ok(res) = res else { return cx.inconclusive("strace could not be run") };
+        if res.timed_out || log.is_empty() {
+            return cx.inconclusive("strace produced no log (eco)");
+        }
+        let stderr = String::from_utf8_lossy(&res.stderr).to_string();
+        // sockets of the probe and the reads on them that ended by the timeout
+        let mut socks: Vec<String> = Vec::new();
+        let (mut timed_out_reads, mut events) = (0usize, 0usize);
+        for raw in log.lines() {
+            let line = raw.trim_start_matches(|c: char| c.is_ascii_digit()).trim_start();
+            if line.starts_with("socket(AF_INET") {
+                if let Some(fd) = line.rsplit("= ").next() {
+                    socks.push(fd.trim().to_string());
+                }
+            }
+            for call in ["recvfrom(", "recv(", "read("] {
+                if let Some(rest) = line.strip_prefix(call) {
+                    let fd = rest.split(',').next().unwrap_or("").trim().to_string();
+                    if socks.contains(&fd) {
+                        events += 1;
+                        if line.contains("EAGAIN") || line.contains("EWOULDBLOCK") {
+                            timed_out_reads += 1;
+                        }
+                    }
+                }
+            }
+        }
+        cx.count_n("syscall-events-checked", events as u64);
+        let result = stderr.lines().find(|l| l.starts_with("PROBE-END")).unwrap_or("").to_string();
+        let label = format!("strace|eco-stall|{}", if chunked { "chunked" } else { "content-length" });
+        let detail = || json!({"case": label, "json_nesting_depth_at_the_stall": depth, "timeout_ms": t, "reads_that_timed_out": timed_out_reads, "probe": result, "reads_on_the_socket": events});
+        if events == 0 {
+            return cx.inconclusive("no read on the probe's socket in the strace log (eco)");
+        }
+        if timed_out_reads > 1 {
+            cx.violation(format!("C12 syscall eco mid-body-stall waits-for-several-timeouts depth-class={}", depth.min(3)), detail);
+        } else if !result.contains("Err(PacketReceive)") {
+            cx.violation(format!("C12 eco mid-body-stall wrong-error-class got={}", result.trim_start_matches("PROBE-END ").chars().take(40).collect::<String>()), detail);
+        } else {
+            cx.shape(&label);
+            cx.shape(&format!("eco-stall|depth={}", depth.min(4)));
+            cx.nontrivial(hash64(label.as_bytes()) ^ (cut as u64) ^ (t << 32));
+            cx.count("eco-stall-one-timeout");
         }
     }
 
@@ -347,7 +436,7 @@ impl C12 {
         s.port = Some(addr.port());
         s.ts_override = TimeoutSettings::new(Some(d), Some(d), Some(d), retries).ok();
         s.ip_override = Some(addr.ip());
-        let bound = Duration::from_millis(timeout * (retries as u64 + 1) * 8) + Duration::from_secs(3);
+        let bound = Duration::from_millis(timeout * (retries as u64 + 1) * 8) + Duration::from_secs(if std::env::var("VERIF_UNDER_MEMCHECK").is_ok() { 30 } else { 3 });
         let mut breaches = 0;
         let mut last: Option<(Duration, String)> = None;
         for attempt in 0 .. 3 {
@@ -402,8 +491,11 @@ impl C12 {
         let d = Duration::from_millis(timeout);
         let mode = cx.rng.below(3);
         // the read timeout must bound the wait whether or not the write / connect timeouts are set
-        let none_variant = if mode == 0 { cx.rng.below(4) } else { 0 };
+        let none_variant = if mode == 0 { cx.rng.below(5) } else { 0 };
+        // variant 4: no settings at all = the documented defaults (4 s each) must be in force
+        let timeout = if none_variant == 4 { 4000 } else { timeout };
         let ts = match none_variant {
+            4 => None,
             1 => TimeoutSettings::new(Some(d), None, Some(d), 0).ok(),
             2 => TimeoutSettings::new(Some(d), Some(d), None, 0).ok(),
             3 => TimeoutSettings::new(Some(d), None, None, 0).ok(),
@@ -415,7 +507,7 @@ impl C12 {
             Err(_) => return cx.inconclusive("cannot bind loopback listener"),
         };
         let port = listener.local_addr().unwrap().port();
-        let label = format!("eco|{}|{}{}", if v6 { "v6" } else { "v4" }, ["accept-never-write", "refused", "valid"][mode as usize], ["", "|write=None", "|connect=None", "|write=None,connect=None"][none_variant as usize]);
+        let label = format!("eco|{}|{}{}", if v6 { "v6" } else { "v4" }, ["accept-never-write", "refused", "valid"][mode as usize], ["", "|write=None", "|connect=None", "|write=None,connect=None", "|no-settings(defaults)"][none_variant as usize]);
         let t0;
         let o;
         match mode {
@@ -429,7 +521,7 @@ impl C12 {
                     let r = guarded(|| gamedig::games::eco::query_with_timeout(&ip, Some(port), &ts).map(|_| ()).map_err(|e| e.kind)).0;
                     let _ = tx.send(r);
                 });
-                let deadline = Duration::from_millis(timeout * 8) + Duration::from_secs(6);
+                let deadline = Duration::from_millis(timeout * if none_variant == 4 { 2 } else { 8 }) + Duration::from_secs(6);
                 match rx.recv_timeout(deadline) {
                     Ok(r) => {
                         o = r;
@@ -440,7 +532,7 @@ impl C12 {
                         drop(listener);
                         let _ = rx.recv_timeout(Duration::from_secs(5));
                         cx.eval();
-                        cx.violation(format!("C12 timeout-not-bounding eco {}{}", if v6 { "v6" } else { "v4" }, if none_variant > 0 { " with-a-None-timeout" } else { "" }), || json!({"case": label, "what": "the query was still blocked after the deadline; it only returned (if at all) once the server side was torn down", "deadline_ms": deadline.as_millis() as u64, "timeout_ms": timeout}));
+                        cx.violation(format!("C12 timeout-not-bounding eco {}{}", if v6 { "v6" } else { "v4" }, if none_variant == 4 { " with-default-settings" } else if none_variant > 0 { " with-a-None-timeout" } else { "" }), || json!({"case": label, "what": "the query was still blocked after the deadline; it only returned (if at all) once the server side was torn down", "deadline_ms": deadline.as_millis() as u64, "timeout_ms": timeout}));
                         return;
                     }
                 }
@@ -484,6 +576,93 @@ impl C12 {
                     cx.shape(&label);
                     cx.count(&format!("eco-ok|{}", kind_name(&k)));
                 }
+            }
+            _ => {}
+        }
+    }
+
+    /// a TCP server that sends the first bytes of a valid reply (or all of it) and then keeps the connection open
+    /// without closing it: every attempt ends by the read timeout, so the query fails with PacketReceive in time
+    fn tcp_hold_case(&self, cx: &mut Cx) {
+        use crate::models::minecraft::{JavaState, LegacyState};
+        use gamedig::games::minecraft::LegacyGroup;
+        let v6 = cx.rng.bool();
+        let legacy = cx.rng.chance(1, 3);
+        let stream = if legacy { LegacyState::gen(&mut cx.rng, LegacyGroup::V1_6).stream() } else { JavaState::gen(&mut cx.rng).stream(&mut cx.rng) };
+        let cut = match cx.rng.below(4) {
+            0 => stream.len(),
+            1 => 1,
+            2 => stream.len() - 1,
+            _ => cx.rng.usize(1, stream.len()),
+        };
+        let prefix = stream[.. cut].to_vec();
+        let timeout = *cx.rng.pick(&[100u64, 250]);
+        let retries = cx.rng.below(3) as usize;
+        let Ok(listener) = std::net::TcpListener::bind(SocketAddr::new(lo(v6), 0)) else { return cx.inconclusive("cannot bind loopback listener") };
+        let addr = listener.local_addr().unwrap();
+        let stop = std::sync::Arc::new(std::sync::atomic::AtomicBool::new(false));
+        let stop2 = stop.clone();
+        let h = std::thread::spawn(move || -> usize {
+            listener.set_nonblocking(true).ok();
+            let mut conns: Vec<(std::net::TcpStream, bool)> = Vec::new();
+            let mut request_bytes = 0usize;
+            let mut buf = [0u8; 4096];
+            while !stop2.load(std::sync::atomic::Ordering::SeqCst) {
+                if let Ok((s, _)) = listener.accept() {
+                    s.set_nonblocking(true).ok();
+                    conns.push((s, false));
+                }
+                for (s, answered) in conns.iter_mut() {
+                    if let Ok(n) = s.read(&mut buf) {
+                        request_bytes += n;
+                        if n > 0 && !*answered {
+                            *answered = true;
+                            s.set_nonblocking(false).ok();
+                            let _ = s.write_all(&prefix);
+                            let _ = s.flush();
+                            s.set_nonblocking(true).ok();
+                        }
+                    }
+                }
+                std::thread::sleep(Duration::from_micros(500));
+            }
+            request_bytes
+        });
+        let d = Duration::from_millis(timeout);
+        let ts = TimeoutSettings::new(Some(d), Some(d), Some(d), retries).ok();
+        let bound = Duration::from_millis(timeout * (retries as u64 + 1) * 8) + Duration::from_secs(3);
+        let mut last = None;
+        let mut breaches = 0;
+        for _ in 0 .. 3 {
+            let t0 = Instant::now();
+            let (o, _) = guarded(|| if legacy { gamedig::games::minecraft::protocol::query_legacy_specific(LegacyGroup::V1_6, &addr, ts).map(|_| ()).map_err(|e| e.kind) } else { gamedig::games::minecraft::protocol::query_java(&addr, ts, None).map(|_| ()).map_err(|e| e.kind) });
+            let el = t0.elapsed();
+            last = Some((o, el));
+            if el <= bound {
+                break;
+            }
+            breaches += 1;
+        }
+        stop.store(true, std::sync::atomic::Ordering::SeqCst);
+        let seen = h.join().unwrap_or(0);
+        cx.eval();
+        let (o, el) = last.unwrap();
+        let label = format!("tcp-hold|{}|{}|{}", if legacy { "legacy1.6" } else { "java" }, if v6 { "v6" } else { "v4" }, if cut == stream.len() { "whole-reply" } else { "partial-reply" });
+        let detail = |what: &str| json!({"what": what, "case": label, "reply_bytes_sent": cut, "reply_bytes_total": stream.len(), "timeout_ms": timeout, "retries": retries, "elapsed_ms": el.as_millis() as u64, "bound_ms": bound.as_millis() as u64, "request_bytes_seen_by_the_server": seen});
+        match o {
+            Outcome::Panicked(p) => cx.violation(format!("C12 panic at {} msg=\"{}\"", p.loc, norm_msg(&p.msg)), || detail(&p.msg)),
+            _ if breaches == 3 => cx.violation(format!("C12 timeout-not-bounding tcp-hold {}", if v6 { "v6" } else { "v4" }), || detail("wallclock, reproduced 3 times")),
+            Outcome::Returned(Err(GDErrorKind::PacketReceive)) => {
+                cx.shape(&label);
+                cx.nontrivial(hash64(label.as_bytes()) ^ hash64(&stream) ^ (cut as u64) ^ timeout ^ ((retries as u64) << 40));
+                cx.count("tcp-hold-ok");
+            }
+            Outcome::Returned(r) => {
+                let got = match &r {
+                    Ok(()) => "Ok".to_string(),
+                    Err(k) => kind_name(k).to_string(),
+                };
+                cx.violation(format!("C12 wrong-error-class tcp-hold {} got={got}", if cut == stream.len() { "whole-reply" } else { "partial-reply" }), || detail("a connection that is never closed ends every attempt by the read timeout: expected PacketReceive"))
             }
             _ => {}
         }
@@ -640,9 +819,17 @@ impl C12 {
 
 impl Check for C12 {
     fn id(&self) -> &'static str { "C12" }
+    fn memcheck_plan(&self, tier: Tier) -> Option<(crate::core::framework::MemMode, Vec<(u64, u64)>)> {
+        if tier != Tier::Thorough {
+            return None;
+        }
+        let total = self.total_cases(tier);
+        let n = 26u64.min(total / 16);
+        Some((crate::core::framework::MemMode::Harness, (0 .. 16).map(|i| (i * (total / 16), n)).collect()))
+    }
     fn level(&self) -> &'static str { "fault_enumeration" }
     fn rule(&self) -> String {
-        "real loopback sockets. (1) syscall log: a child running UdpSocketImpl/TcpSocketImpl new+send+receive under strace -f for UDP/TCP x IPv4/IPv6 x timeout triples (each member Some or None) x payloads; an offline checker asserts SO_RCVTIMEO/SO_SNDTIMEO equal to the configured values on every socket before its first I/O, a non-blocking connect polled with the configured connect timeout, wire bytes equal to the payload and the destination equal to the caller's address. (2) behaviour: 13 protocol entry points + Eco against loopback servers that fall silent after 0-3 replies, keep a TCP connection open without writing, or refuse (Eco also with the write and/or connect timeout None), for timeouts {50,150,400} ms x retries 0-2 x IPv4/IPv6: error class and elapsed <= (retries+1) x 8 x timeout + 3 s (a breach is re-run twice; only a 3-fold breach counts). (3) integrity: direct send/receive against an echo peer for payload sizes {0,1,2,1023,1024,1025,6144,65507} and random, reply truncated to the requested size. (4) fidelity: the same reactive model server scripted and over loopback gives identical results. non-trivial = a case whose oracle ran to a verdict; distinct by (kind, parameters, payload)".into()
+        "real loopback sockets. (1) syscall log: a child running UdpSocketImpl/TcpSocketImpl new+send+receive under strace -f for UDP/TCP x IPv4/IPv6 x timeout triples (each member Some or None) x payloads; an offline checker asserts SO_RCVTIMEO/SO_SNDTIMEO equal to the configured values on every socket before its first I/O, a non-blocking connect polled with the configured connect timeout, wire bytes equal to the payload and the destination equal to the caller's address; an Eco query against an HTTP server that stalls in the middle of the body (any JSON nesting depth, Content-Length or chunked) performs exactly one read that runs into the timeout and fails with PacketReceive. (2) behaviour: 13 protocol entry points + Eco against loopback servers that fall silent after 0-3 replies, keep a TCP connection open without writing, or refuse (Eco also with the write and/or connect timeout None, and with no settings at all = the 4 s defaults), for timeouts {50,150,400} ms x retries 0-2 x IPv4/IPv6: error class and elapsed <= (retries+1) x 8 x timeout + 3 s (a breach is re-run twice; only a 3-fold breach counts). a TCP server that sends part or all of a reply and then holds the connection open must give PacketReceive in time. (3) integrity: direct send/receive against an echo peer for payload sizes {0,1,2,1023,1024,1025,6144,65507} and random, reply truncated to the requested size. (4) fidelity: the same reactive model server scripted and over loopback gives identical results. non-trivial = a case whose oracle ran to a verdict; distinct by (kind, parameters, payload)".into()
     }
     fn assumptions(&self) -> Vec<String> {
         vec![
@@ -654,7 +841,9 @@ impl Check for C12 {
     fn total_cases(&self, tier: Tier) -> u64 { tier.pick(520, 8_000) }
     fn run_case(&mut self, cx: &mut Cx) {
         match cx.idx % 13 {
+            2 if (cx.idx / 13) % 2 == 0 => self.strace_eco_case(cx),
             0 | 1 | 2 => self.strace_case(cx),
+            6 if (cx.idx / 13) % 2 == 1 => self.tcp_hold_case(cx),
             3 | 4 | 5 | 6 => self.behaviour_case(cx),
             7 => self.eco_behaviour(cx),
             8 | 9 | 10 => self.integrity_case(cx),
@@ -673,7 +862,7 @@ impl Check for C12 {
         Ok(())
     }
     fn extra_coverage(&self, _tier: Tier, m: &Stats) -> Value {
-        json!({"syscall_events": m.counters.get("syscall-events-checked"), "fidelity_identical": m.counters.get("fidelity-identical"), "behaviour_outcomes": m.counters.iter().filter(|(k, _)| k.starts_with("behaviour-ok|") || k.starts_with("eco-ok|")).collect::<std::collections::BTreeMap<_, _>>()})
+        json!({"syscall_events": m.counters.get("syscall-events-checked"), "eco_mid_body_stalls_with_exactly_one_timed_out_read": m.counters.get("eco-stall-one-timeout"), "strace_cases_with_a_None_timeout": m.counters.get("strace-cases-with-a-None-timeout"), "fidelity_identical": m.counters.get("fidelity-identical"), "behaviour_outcomes": m.counters.iter().filter(|(k, _)| k.starts_with("behaviour-ok|") || k.starts_with("eco-ok|")).collect::<std::collections::BTreeMap<_, _>>()})
     }
     fn budget_s(&self, tier: Tier) -> u64 { tier.pick(150, 1200) }
 }
